@@ -71,7 +71,29 @@ func be32(v *big.Int) []byte {
 func (g *Gen) scalarVal() *big.Int {
 	r := g.r
 	var v *big.Int
-	switch r.Pick([]float64{2, 2, 3, 3, 4, 2, 1, 3, 2}) {
+	switch r.Pick([]float64{2, 2, 3, 3, 4, 2, 1, 3, 2, 2}) {
+	case 9:
+		// byte-level structure that neither edge values nor uniform draws have
+		b := r.Bytes(32)
+		switch r.N(4) {
+		case 0: // one or two zero bytes somewhere
+			b[r.N(32)] = 0
+			if r.P(0.5) {
+				b[r.N(32)] = 0
+			}
+		case 1: // both halves equal
+			copy(b[16:], b[:16])
+		case 2: // one 64-bit limb repeated
+			for i := 8; i < 32; i++ {
+				b[i] = b[i%8]
+			}
+		default: // a run of equal bytes
+			c, at, n := byte(r.N(256)), r.N(24), 2+r.N(8)
+			for i := at; i < at+n; i++ {
+				b[i] = c
+			}
+		}
+		v = new(big.Int).SetBytes(b)
 	case 0:
 		v = big.NewInt(int64(r.N(5)))
 	case 1:
@@ -214,8 +236,8 @@ func (g *Gen) pointVal() model.Point {
 	case 5:
 		return model.Inf()
 	case 6:
-		if have {
-			return model.Double(cur)
+		if have { // a small multiple of a value the task already holds
+			return model.Mul(big.NewInt(int64(2+r.N(5))), cur)
 		}
 	default:
 		k := g.scalarVal()
